@@ -404,7 +404,7 @@ func init() {
 	vc.Register(&vc.Check{
 		ID: "C11", Level: "model_checking", SingleProc: true,
 		Rule: "10 (thorough 12) skeletons of <=6 registry events over <=3 connections and two keys (duplicate-key connect after/racing the owner's join, close then reconnect, close racing a duplicate, two keys, SendActiveMessage racing a leave / after a leave / to an absent key), each under ALL schedules within the deviation bound (2 quick, 3 thorough); " +
-			"per execution the join/leave/route call-return history is checked for linearizability against a sequential key->connection map with porcupine, refused sockets must be closed, join/leave callbacks are counted, the owner's heartbeats must all be answered. Then EVERY thread interleaving (no preemption bound) of every skeleton with the default environment answers (timers fire when nothing else can run, first ready select case (moving on to the next when the same select is met again), writes succeed), using a cache of happens-before state keys: each state is expanded once, every state and transition is executed at least once (not every path: the linearizability of call/return intervals is decided by the bounded search, the cached search adds the state and transition oracles); the cache is validated per run by a self-test (cached search = every-schedule search on 20 programs that fail when a component of the key is removed) and by comparing a harness digest whenever a key is met again; counters unbounded_* say how many scenarios closed and how many stopped at the state limit (quick 20000 states, thorough 400000). Non-trivial = schedule with >=1 deviation",
+			"per execution the join/leave/route call-return history is checked for linearizability against a sequential key->connection map with porcupine, refused sockets must be closed, join/leave callbacks are counted, the owner's heartbeats must all be answered. Then EVERY thread interleaving (no preemption bound) of every skeleton with the default environment answers (timers fire when nothing else can run, first ready select case (moving on to the next when the same select is met again), writes succeed), using a cache of happens-before state keys: each state is expanded once, every state and transition is executed at least once (not every path: the linearizability of call/return intervals is decided by the bounded search, the cached search adds the state and transition oracles); the cache is validated per run by a self-test (cached search = every-schedule search on 20 programs that fail when a component of the key is removed) and by comparing a harness digest whenever a key is met again; the flag exhaustive refers to the deviation-bounded families; for the cached pass the counters unbounded_* say how many scenarios closed and how many stopped at the state limit (quick 20000 states, thorough 400000). Non-trivial = schedule with >=1 deviation",
 		Assumptions: []string{"call time of join = first read callback of the connection, of leave = its last earlier callback (intervals are enlarged, never shrunk, so no false alarm)",
 			"commands whose caller never returned are C13's subject and are left out of the history"},
 		Run: func(ctx *vc.Ctx, rep *vc.Report) {
